@@ -232,6 +232,11 @@ func NewMatchField[Int constraints.Integer | *big.Int | ~[]byte, Mask constraint
 	if len(mask) > 0 {
 		var maskInt *big.Int
 		length /= 2
+		for i := 0; i < len(mask) && i < 2; i++ {
+			if mask[i] < 0 || uint64(mask[i]) > 8*uint64(length) {
+				return nil, fmt.Errorf("invalid mask: out of field range")
+			}
+		}
 		if len(mask) != 3 || mask[2] == 1 {
 			value = value.Lsh(value, uint(mask[0]))
 		}
@@ -244,7 +249,13 @@ func NewMatchField[Int constraints.Integer | *big.Int | ~[]byte, Mask constraint
 		if value.Cmp(maskValue) != 0 {
 			return nil, fmt.Errorf("invalid mask and data")
 		}
+		if maskInt.BitLen() > 8*int(length) {
+			return nil, fmt.Errorf("invalid mask: out of field range")
+		}
 		field.Mask = big2byte(maskInt, length)
+	}
+	if value.BitLen() > 8*int(length) {
+		return nil, fmt.Errorf("invalid data: out of field range")
 	}
 	field.Value = big2byte(value, length)
 	return field, nil
